@@ -9,28 +9,8 @@ the same file); used as the specification side of `Props.C09.midx_bytes_roundtri
 -/
 namespace GixModel.C09M
 open GixModel
-open GixModel.C09 (be32 be64 Midx)
-open GixModel.C14 (tocBytes layout optChunk)
 
-/-- `index_names::write`: every name followed by NUL, then zero padding up to a multiple of 4 -/
-def namesPayload (names : List Bytes) : Bytes :=
-  let b := names.flatMap (fun n => n ++ [0])
-  b ++ List.replicate (if b.length % 4 = 0 then 0 else 4 - b.length % 4) 0
-
-/-- `offsets::write`: pack index and 32-bit offset word per object -/
-def ooffPayload (x : Midx) : Bytes := ((x.packIds.zip x.ofs32).map (fun p => be32 p.1 ++ be32 p.2)).flatten
-
-/-- the chunks in the order they are planned -/
-def mChunks (names : List Bytes) (x : Midx) : List (Bytes × Bytes) :=
-  [(PNAM, namesPayload names), (OIDF, x.fan.flatMap be32), (OIDL, x.ids.flatten), (OOFF, ooffPayload x)]
-    ++ optChunk LOFF (x.large.map (fun l => l.flatMap be64))
-
-def mHeader (names : List Bytes) (x : Midx) : Bytes :=
-  [77, 73, 68, 88, 1, 1, UInt8.ofNat (mChunks names x).length, 0] ++ be32 names.length
-
-/-- the whole multi-pack-index file (`trailer` = the checksum, not modelled) -/
-def mWrite (names : List Bytes) (x : Midx) (trailer : Bytes) : Bytes :=
-  mHeader names x ++ (tocBytes (layout (mChunks names x) (12 + 12 * ((mChunks names x).length + 1)))
-    ++ (((mChunks names x).map (·.2)).flatten ++ trailer))
+-- (the definitions `namesPayload`, `ooffPayload`, `mChunks`, `mHeader`, `mWrite` live in Model/C09M.lean so that the
+-- driver can print the bytes: operation `midxw`, compared with the real writer's output byte for byte)
 
 end GixModel.C09M
